@@ -239,7 +239,10 @@ Proof.
     + intros i old Hn. apply nth_error_repeat_some in Hn. discriminate.
   - (* DeliverAck *)
     unfold pop_head. destruct (nth_error (to_server s) i) as [[|e q]|]; try exact H.
-    unfold lis_on_ack. destruct (e =? l_epoch (lis s)); [|constructor; cbn; auto].
+    unfold lis_on_ack.
+    destruct ((l_state (lis s) =? st_hr) && (e =? l_epoch (lis s)) &&
+              match nth_error (l_sess (lis s)) i with Some x => ls_state x =? st_hr | None => false end);
+      [|constructor; cbn; auto].
     constructor; cbn; auto.
     destruct (nth_error (l_sess (lis s)) i) as [x|] eqn:Hx; [|exact Hhs].
     apply Forall_upd; [exact Hhs|]. cbn. eapply (Forall_nth_error _ _ _ _ _ Hhs Hx).
@@ -334,7 +337,9 @@ Proof.
     - destruct (count_some (m_reserve (mgr s)) =? length (m_pools (mgr s)))%nat; cbn; auto.
     - cbn. auto.
     - unfold pop_head. destruct (nth_error (to_server s) i) as [[|e q]|]; cbn; auto.
-      unfold lis_on_ack. destruct (e =? l_epoch (lis s)); cbn; auto.
+      unfold lis_on_ack.
+      destruct ((l_state (lis s) =? st_hr) && (e =? l_epoch (lis s)) &&
+                match nth_error (l_sess (lis s)) i with Some x => ls_state x =? st_hr | None => false end); cbn; auto.
     - destruct (nth_error (to_server s) i); cbn; auto.
     - cbn. auto.
     - destruct (nth_error (m_pools (mgr s)) i); cbn; auto.
@@ -440,7 +445,21 @@ Qed.
 
 Theorem stale_ack : forall l i e, e <> l_epoch l -> lis_on_ack l i e = l.
 Proof.
-  intros l i e He. unfold lis_on_ack. destruct (e =? l_epoch l) eqn:E; [apply Z.eqb_eq in E; congruence | reflexivity].
+  intros l i e He. unfold lis_on_ack. destruct (e =? l_epoch l) eqn:E; [apply Z.eqb_eq in E; congruence|].
+  rewrite andb_false_r. reflexivity.
+Qed.
+
+(* an ack handled outside hotRestartState (late: after the time-out reset the count; or after the
+   checker declared the restart done) changes nothing; nor does a second ack on the same session *)
+Theorem late_ack_ignored : forall l i e, l_state l <> st_hr -> lis_on_ack l i e = l.
+Proof.
+  intros l i e H. unfold lis_on_ack. apply Z.eqb_neq in H. rewrite H. reflexivity.
+Qed.
+
+Theorem repeated_ack_ignored : forall l i e x, nth_error (l_sess l) i = Some x -> ls_state x <> st_hr ->
+  lis_on_ack l i e = l.
+Proof.
+  intros l i e x Hx H. unfold lis_on_ack. rewrite Hx. apply Z.eqb_neq in H. rewrite H, andb_false_r. reflexivity.
 Qed.
 
 (* the same at the level of events: delivering a message whose epoch differs only consumes it *)
@@ -463,32 +482,6 @@ Proof.
 Qed.
 
 (* ------------------------------------------------------------------ the ack counter *)
-(* an ack carrying the listener's epoch is "timely" if the listener is in hotRestartState and the
-   session it arrives on is in the table and itself waiting (state hotRestartState).  The code does
-   NOT check this (handleHotRestartAck compares the epoch only). *)
-Definition timely (s : state) (ev : event) : bool :=
-  match ev with
-  | DeliverAck i =>
-      match nth_error (to_server s) i with
-      | Some (e :: _) =>
-          if e =? l_epoch (lis s) then
-            (l_state (lis s) =? st_hr) &&
-            match nth_error (l_sess (lis s)) i with
-            | Some x => ls_present x && (ls_state x =? st_hr)
-            | None => false
-            end
-          else true
-      | _ => true
-      end
-  | _ => true
-  end.
-
-Fixpoint run_timely (evs : list event) (s : state) : Prop :=
-  match evs with
-  | [] => True
-  | ev :: r => timely s ev = true /\ run_timely r (step s ev)
-  end.
-
 Definition AckInv (s : state) : Prop :=
   count_hr (l_sess (lis s)) <= l_ack (lis s) /\ (l_state (lis s) <> st_hr -> count_hr (l_sess (lis s)) = 0).
 
@@ -519,9 +512,9 @@ Proof.
   - rewrite Hp. reflexivity.
 Qed.
 
-Lemma step_ackinv : forall s ev, AckInv s -> timely s ev = true -> AckInv (step s ev).
+Lemma step_ackinv : forall s ev, AckInv s -> AckInv (step s ev).
 Proof.
-  intros s ev [H1 H2] Ht. unfold step, AckInv. destruct (enabled s ev) eqn:He; [|split; assumption].
+  intros s ev [H1 H2]. unfold step, AckInv. destruct (enabled s ev) eqn:He; [|split; assumption].
   destruct ev; cbn [apply_event]; try (split; assumption).
   - (* ServerHotRestart *)
     unfold hot_restart. destruct (l_state (lis s) =? st_hr) eqn:Hst; cbn; [split; assumption|].
@@ -532,13 +525,15 @@ Proof.
   - unfold pop_head. destruct (nth_error (to_client s) i) as [[|e q]|]; split; assumption.
   - destruct (nth_error (to_client s) i); split; assumption.
   - destruct (count_some (m_reserve (mgr s)) =? length (m_pools (mgr s)))%nat; split; assumption.
-  - (* DeliverAck *)
-    cbn [timely] in Ht. unfold pop_head.
+  - (* DeliverAck: counted only in hotRestartState, on a waiting session that is in the table *)
+    cbn [enabled] in He. apply andb_prop in He. destruct He as [_ Hpres].
+    unfold pop_head.
     destruct (nth_error (to_server s) i) as [[|e q]|]; try (split; assumption). cbn.
-    unfold lis_on_ack. destruct (e =? l_epoch (lis s)); [|split; assumption].
-    apply andb_prop in Ht. destruct Ht as [Hst Hx].
+    unfold lis_on_ack.
     destruct (nth_error (l_sess (lis s)) i) as [x|] eqn:Hxi; [|discriminate].
-    cbn. rewrite (count_hr_upd_done _ _ _ Hxi). rewrite Hx.
+    destruct ((l_state (lis s) =? st_hr) && (e =? l_epoch (lis s)) && (ls_state x =? st_hr)) eqn:Hc; [|split; assumption].
+    apply andb_prop in Hc. destruct Hc as [Hc Hx]. apply andb_prop in Hc. destruct Hc as [Hst _].
+    cbn. rewrite (count_hr_upd_done _ _ _ Hxi). rewrite Hpres, Hx. cbn [andb].
     apply Z.eqb_eq in Hst. split; [lia | intro X; congruence].
   - destruct (nth_error (to_server s) i); split; assumption.
   - (* ListenerTick *)
@@ -566,24 +561,19 @@ Proof.
   rewrite G. split; [lia | auto].
 Qed.
 
-Theorem ack_partial : forall n evs, run_timely evs (init n) ->
+(* for ALL histories: the count is never negative, it covers every session in the table that still
+   waits for its ack, and outside hotRestartState (in particular when the checker declared the
+   restart done) no session in the table is still waiting *)
+Theorem ack_full : forall n evs,
   let s := run evs (init n) in
   0 <= l_ack (lis s) /\ count_hr (l_sess (lis s)) <= l_ack (lis s) /\
   (l_state (lis s) <> st_hr -> count_hr (l_sess (lis s)) = 0).
 Proof.
   intros n evs. cbn zeta.
-  assert (G : forall evs s, AckInv s -> run_timely evs s -> AckInv (run evs s)).
-  { induction evs0 as [|ev r IH]; intros s Hs Ht; cbn; [exact Hs|]. destruct Ht as [Ht Hr].
-    apply IH; [apply step_ackinv; assumption | exact Hr]. }
-  intro Ht. destruct (G evs (init n) (init_ackinv n) Ht) as [H1 H2].
+  destruct (run_inv AckInv step_ackinv evs (init n) (init_ackinv n)) as [H1 H2].
   pose proof (count_hr_nonneg (l_sess (lis (run evs (init n))))). repeat split; [lia | exact H1 | exact H2].
 Qed.
 
-(* the late ack: the listener times out, then the ack arrives *)
+(* the former witness: the listener times out, then the ack arrives — now ignored *)
 Definition late_ack_history : list event :=
   [ServerHotRestart 5; DeliverRestart 0 true; ManagerTick; ListenerTimeout; DeliverAck 0].
-
-Theorem ack_refuted : ~ (forall n evs, 0 <= l_ack (lis (run evs (init n)))).
-Proof.
-  intro H. specialize (H 1%nat late_ack_history). vm_compute in H. apply H. reflexivity.
-Qed.
